@@ -66,6 +66,14 @@ func factsMisc() {
 	emitStr("reloaderNoReloadCond", "pkg/reloader/reloader.go apply: the condition under which nothing is reloaded",
 		firstIfCond(body(ap), "forceReload"))
 
+	// ---- C47: the decision skeleton of the Watch loop (the last `for { … }` of Reloader.Watch) and of
+	// the retry loop (runutil.RetryWithLog)
+	emitList("reloaderWatchLoop", "pkg/reloader/reloader.go Watch: the endless loop — select, exits, timer reset and apply, in source order",
+		loopSkeleton(fn(f, "Reloader", "Watch"), "applyCancel", "context.WithTimeout", "r.apply", "wg.Wait"))
+	fr := parse("pkg/runutil/runutil.go")
+	emitList("retryLoop", "pkg/runutil/runutil.go RetryWithLog: the loop — call, exits, select, in source order",
+		loopSkeleton(fn(fr, "", "RetryWithLog"), "f"))
+
 	// ---- C48: what the chunk iterator does with a chunk that loses all its samples
 	f = parse("pkg/compactv2/modifiers.go")
 	emitStr("rewriteEmptyChunkAction", "pkg/compactv2/modifiers.go delChunkSeriesIterator.Next: last statement of the branch `p.currDelIter.Next() == chunkenc.ValNone`",
@@ -88,6 +96,93 @@ func emptyChunkAction(fd *ast.FuncDecl) string {
 		return true
 	})
 	return res
+}
+
+// loopSkeleton describes the last condition-less `for { … }` of a function: select statements with
+// their cases, if-conditions, return / continue / break statements and the calls named in `names`
+// (with their arguments), in source order.
+func loopSkeleton(fd *ast.FuncDecl, names ...string) []string {
+	var r []string
+	if fd == nil || fd.Body == nil {
+		return r
+	}
+	var loop *ast.ForStmt
+	ast.Inspect(fd.Body, func(n ast.Node) bool {
+		if _, ok := n.(*ast.FuncLit); ok {
+			return false
+		}
+		if f, ok := n.(*ast.ForStmt); ok && f.Cond == nil && f.Init == nil && f.Post == nil {
+			loop = f
+		}
+		return true
+	})
+	if loop == nil {
+		return r
+	}
+	want := map[string]bool{}
+	for _, n := range names {
+		want[n] = true
+	}
+	comm := func(c *ast.CommClause) string {
+		switch x := c.Comm.(type) {
+		case nil:
+			return "default"
+		case *ast.SendStmt:
+			return "send " + text(x.Chan)
+		case *ast.ExprStmt:
+			if u, ok := x.X.(*ast.UnaryExpr); ok {
+				return "recv " + text(u.X)
+			}
+		}
+		return "unknown"
+	}
+	var walk func(n ast.Node)
+	walk = func(n ast.Node) {
+		ast.Inspect(n, func(m ast.Node) bool {
+			switch x := m.(type) {
+			case *ast.FuncLit:
+				return false
+			case *ast.SelectStmt:
+				var cs []string
+				for _, c := range x.Body.List {
+					cs = append(cs, comm(c.(*ast.CommClause)))
+				}
+				r = append(r, "select{"+strings.Join(cs, "|")+"}")
+				for _, c := range x.Body.List {
+					for _, st := range c.(*ast.CommClause).Body {
+						walk(st)
+					}
+				}
+				return false
+			case *ast.IfStmt:
+				c := text(x.Cond)
+				if x.Init != nil {
+					c = text(x.Init) + "; " + c
+				}
+				r = append(r, "if "+c)
+				if x.Init != nil {
+					walk(x.Init)
+				}
+				walk(x.Body)
+				if x.Else != nil {
+					r = append(r, "else")
+					walk(x.Else)
+				}
+				return false
+			case *ast.ReturnStmt:
+				r = append(r, "return")
+			case *ast.BranchStmt:
+				r = append(r, x.Tok.String())
+			case *ast.CallExpr:
+				if want[callName(x)] {
+					r = append(r, text(x))
+				}
+			}
+			return true
+		})
+	}
+	walk(loop.Body)
+	return r
 }
 
 func tracksWritten(fd *ast.FuncDecl) string {
